@@ -303,3 +303,115 @@ theorem c01_identity_replace_instance (env : Env (Ten α)) (c : Ten α) (hc : en
   simpa using this
 
 end RtenVerif.Optimize.TSem
+
+/-! # Softmax fusions with the `flush_nans_to_zero` flag (seed C01_c)
+
+One lane (the softmax axis) over scalars with a NaN test: `sm` is the lane softmax (it may produce
+NaNs, e.g. for a fully masked lane), `Softmax{flush}` replaces NaNs of its result by zero.
+`hsem_safe_softmax`: `Where(IsNaN(P), 0, P)`, `P = Softmax{false}(x)`, is `Softmax{true}(x)`.
+`hsem_add_softmax`: `Softmax{fl}(Add(qk, mask))` is `AddSoftmax{fl}(qk, mask)` — **for the same flag**;
+`add_softmax_flag_needed`: with the flag dropped the results differ on a fully masked lane. -/
+namespace RtenVerif.Optimize.SoftmaxSem
+open RtenVerif.Optimize
+
+structure Lane (α : Type) where
+  add : α → α → α
+  zero : α
+  isNan : α → Bool
+  sm : List α → List α
+  sm_length : ∀ l, (sm l).length = l.length
+
+inductive SV (α : Type) where
+  | f (l : List α)
+  | b (l : List Bool)
+deriving DecidableEq
+
+inductive SK where
+  | add | isnan | whereZ
+  | softmax (flush : Bool)
+  | addsoftmax (flush : Bool)
+deriving DecidableEq
+
+variable {α : Type}
+
+def flushIf (L : Lane α) (fl : Bool) (l : List α) : List α :=
+  if fl then l.map (fun v => if L.isNan v then L.zero else v) else l
+
+def ssem (L : Lane α) : Sem SK (SV α) where
+  app
+    | .add, [.f a, .f b] => if a.length = b.length then some [.f (List.zipWith L.add a b)] else none
+    | .softmax fl, [.f a] => some [.f (flushIf L fl (L.sm a))]
+    | .isnan, [.f a] => some [.b (a.map L.isNan)]
+    | .whereZ, [.b c, .f [z], .f y] =>
+      if c.length = y.length then some [.f (List.zipWith (fun (c : Bool) v => if c then z else v) c y)] else none
+    | .addsoftmax fl, [.f a, .f b] =>
+      if a.length = b.length then some [.f (flushIf L fl (L.sm (List.zipWith L.add a b)))] else none
+    | _, _ => none
+
+theorem where_isnan (L : Lane α) : ∀ l : List α,
+    List.zipWith (fun (c : Bool) v => if c then L.zero else v) (l.map L.isNan) l
+      = l.map (fun v => if L.isNan v then L.zero else v) := by
+  intro l
+  induction l with
+  | nil => rfl
+  | cons x xs ih => simp [List.zipWith, ih]
+
+/-- value ids: 0 = x / qk, 4 = mask, 5 = the zero constant -/
+def oSoftmax (fl : Bool) (i o : Nat) : Op SK := ⟨10, .softmax fl, [i], [], [o]⟩
+def oIsNan : Op SK := ⟨11, .isnan, [1], [], [2]⟩
+def oWhere : Op SK := ⟨12, .whereZ, [2, 5, 1], [], [3]⟩
+def oAdd : Op SK := ⟨13, .add, [0, 4], [], [1]⟩
+def oAddSoftmax (fl : Bool) : Op SK := ⟨14, .addsoftmax fl, [0, 4], [], [2]⟩
+
+/-- **hsem, SafeSoftmaxFusion**. -/
+theorem hsem_safe_softmax (L : Lane α) (E : Env (SV α)) (hz : E 5 = some (.f [L.zero])) (h1 : E 1 = none) (h2 : E 2 = none) :
+    run (ssem L) [oSoftmax false 0 1, oIsNan, oWhere] E 3 = step (ssem L) E (oSoftmax true 0 3) 3 := by
+  cases hx : E 0 with
+  | none => simp [run, step, result, readAll, Op.reads, oSoftmax, oIsNan, oWhere, hx, h1, h2]
+  | some xv =>
+    cases xv with
+    | b l => simp [run, step, result, readAll, Op.reads, oSoftmax, oIsNan, oWhere, hx, h1, h2, ssem, bind]
+    | f l =>
+      simp [run, step, result, readAll, Op.reads, oSoftmax, oIsNan, oWhere, hx, hz, ssem, bind, flushIf, where_isnan]
+
+/-- **hsem, AddSoftmaxFusion** — the fused operator carries the Softmax's own flag. -/
+theorem hsem_add_softmax (L : Lane α) (fl : Bool) (E : Env (SV α)) (h1 : E 1 = none) :
+    run (ssem L) [oAdd, oSoftmax fl 1 2] E 2 = step (ssem L) E (oAddSoftmax fl) 2 := by
+  cases hq : E 0 with
+  | none => simp [run, step, result, readAll, Op.reads, oAdd, oSoftmax, oAddSoftmax, hq, h1]
+  | some qv =>
+    cases hm : E 4 with
+    | none => simp [run, step, result, readAll, Op.reads, oAdd, oSoftmax, oAddSoftmax, hq, hm, h1]
+    | some mv =>
+      cases qv with
+      | b l => cases mv <;> simp [run, step, result, readAll, Op.reads, oAdd, oSoftmax, oAddSoftmax, hq, hm, h1, ssem]
+      | f a =>
+        cases mv with
+        | b l => simp [run, step, result, readAll, Op.reads, oAdd, oSoftmax, oAddSoftmax, hq, hm, h1, ssem]
+        | f m =>
+          by_cases hl : a.length = m.length
+          · simp [run, step, result, readAll, Op.reads, oAdd, oSoftmax, oAddSoftmax, hq, hm, ssem, bind, hl]
+          · simp [run, step, result, readAll, Op.reads, oAdd, oSoftmax, oAddSoftmax, hq, hm, h1, ssem, hl]
+
+/-! ## the flag is needed: `Option Int` scalars, `none` = NaN, `-1000` = −inf -/
+
+def optLane : Lane (Option Int) :=
+  { add := fun a b => match a, b with
+      | some x, some y => if x = -1000 ∨ y = -1000 then some (-1000) else some (x + y)
+      | _, _ => none,
+    zero := some 0,
+    isNan := Option.isNone,
+    sm := fun l => if l.all (· == some (-1000)) then l.map (fun _ => none) else l,
+    sm_length := by intro l; split <;> simp }
+
+def envMasked : Env (SV (Option Int)) := fun i =>
+  if i = 0 then some (.f [some 1, some 2]) else if i = 4 then some (.f [some (-1000), some (-1000)]) else none
+
+/-- A fully masked lane: `Softmax{flush}(qk + mask)` is all zeros, `AddSoftmax{flush = false}` is all
+NaN — dropping the flag in AddSoftmaxFusion (seed C01_c) changes NaN positions. -/
+theorem add_softmax_flag_needed :
+    run (ssem optLane) [oAdd, oSoftmax true 1 2] envMasked 2 = some (.f [some 0, some 0]) ∧
+    step (ssem optLane) envMasked (oAddSoftmax false) 2 = some (.f [none, none]) ∧
+    step (ssem optLane) envMasked (oAddSoftmax true) 2 = some (.f [some 0, some 0]) := by decide
+
+end RtenVerif.Optimize.SoftmaxSem
